@@ -832,3 +832,181 @@ Proof. cbv zeta. eexists. split; [vm_compute; reflexivity|]. split; reflexivity.
 Theorem inv_set_encodings_tree : forall fixed fmt s encs cl,
   wf_fb (sfb s) -> Inv fixed fmt s cl -> Inv fixed fmt s (set_encodings true s encs cl).
 Proof. intros. apply inv_set_encodings; auto. Qed.
+
+(* ------------------------------------------------------------------ cursor replaced during an update *)
+Lemma Forall_set_nth {A} : forall (P : A -> Prop) l n v l',
+  Forall P l -> P v -> set_nth l n v = Some l' -> Forall P l'.
+Proof.
+  intros P l. induction l as [|a t IH]; intros n v l' F Pv H; cbn in H; [discriminate|].
+  inversion F; subst. destruct n as [|n].
+  - inversion H; subst. constructor; auto.
+  - destruct (set_nth t n v) as [t'|] eqn:E; [|discriminate]. inversion H; subst. constructor; eauto.
+Qed.
+
+Lemma set_cursor_screen : forall s cls nc,
+  sfb (fst (set_cursor s cls nc)) = sfb s /\ scur (fst (set_cursor s cls nc)) = nc.
+Proof. intros. split; reflexivity. Qed.
+
+Lemma set_cursor_failnext : forall s cls nc,
+  Forall (fun cl => failnext cl = false) cls ->
+  Forall (fun cl => failnext cl = false) (snd (set_cursor s cls nc)).
+Proof.
+  intros s cls nc F. cbn [set_cursor snd]. rewrite Forall_forall in *. intros c Hin.
+  apply in_map_iff in Hin. destruct Hin as (c1 & E & Hin). apply in_map_iff in Hin. destruct Hin as (c0 & E0 & Hin).
+  specialize (F _ Hin). subst c c1. destruct (shape c0) eqn:S0; unfold redraw, set_modif; cbn; rewrite ?S0; cbn; rewrite ?S0; cbn; exact F.
+Qed.
+
+(* the bracket still restores the framebuffer, and every client keeps its invariant, when the
+   application replaces the cursor from its displayHook at the head of the update *)
+Theorem inv_update_one : forall fixed v_empty fmt hook s cls k s' cls' o fired,
+  wf_fb (sfb s) -> wf_ocursor (scur s) ->
+  (forall hk nc, hook = Some (hk, nc) -> wf_ocursor nc) ->
+  Forall (fun cl => failnext cl = false) cls ->
+  Forall (Inv fixed fmt s) cls ->
+  update_one fixed v_empty fmt hook s cls k = Some (s', cls', o, fired) ->
+  sfb s' = sfb s /\ wf_ocursor (scur s') /\
+  Forall (fun cl => failnext cl = false) cls' /\ Forall (Inv fixed fmt s') cls'.
+Proof.
+  intros fixed v_empty fmt hook s cls k s' cls' o fired Wf Wc Wh Ff Fi H. unfold update_one in H.
+  destruct (nth_error cls k) as [cl|] eqn:Ek; [|inversion H; subst; auto].
+  destruct (alive cl && fb_update_pending s cl && negb (rgn_is_empty (fw (sfb s)) (fh (sfb s)) (req cl)));
+    [|inversion H; subst; auto].
+  (* the state after the hook *)
+  assert (Hook : exists s1 cls1 f1,
+    (match hook with
+     | Some (hk, nc) => if Nat.eqb hk k then (let '(a, b) := set_cursor s cls nc in (a, b, true)) else (s, cls, false)
+     | None => (s, cls, false)
+     end) = (s1, cls1, f1) /\
+    sfb s1 = sfb s /\ wf_ocursor (scur s1) /\ Forall (fun cl => failnext cl = false) cls1 /\
+    Forall (Inv fixed fmt s1) cls1).
+  { destruct hook as [[hk nc]|]; [|do 3 eexists; split; [reflexivity|auto]].
+    destruct (Nat.eqb hk k); [|do 3 eexists; split; [reflexivity|auto]].
+    destruct (set_cursor s cls nc) as [a b] eqn:Es. do 3 eexists. split; [reflexivity|].
+    pose proof (set_cursor_screen s cls nc) as [A1 A2]. rewrite Es in A1, A2. cbn [fst] in A1, A2.
+    split; [exact A1|]. split; [rewrite A2; eapply Wh; reflexivity|].
+    pose proof (set_cursor_failnext s cls nc Ff) as F1. rewrite Es in F1. split; [exact F1|].
+    pose proof (inv_set_cursor fixed fmt s cls nc Wf Fi) as I1. rewrite Es in I1. exact I1. }
+  destruct Hook as (s1 & cls1 & f1 & Eh & Ef1 & Wc1 & Ff1 & Fi1). rewrite Eh in H.
+  destruct (nth_error cls1 k) as [cl1|] eqn:Ek1; [|discriminate].
+  destruct (send_update fixed v_empty fmt s1 cl1) as [[[s2 cl2] o2]|] eqn:Su; [|discriminate].
+  destruct (set_nth cls1 k cl2) as [cls2|] eqn:Sn; [|discriminate]. inversion H; subst; clear H.
+  assert (Wf1 : wf_fb (sfb s1)) by (rewrite Ef1; exact Wf).
+  pose proof (send_update_restores _ _ _ _ _ _ _ _ Wf1 Wc1 Su) as Ef2.
+  destruct (send_update_cursor _ _ _ _ _ _ _ _ Wf1 Wc1 Su) as [Wc2 Eq2].
+  assert (In1 : In cl1 cls1) by (eapply nth_error_In; eauto).
+  assert (Fn1 : failnext cl1 = false) by (rewrite Forall_forall in Ff1; auto).
+  assert (I1 : Inv fixed fmt s1 cl1) by (rewrite Forall_forall in Fi1; auto).
+  pose proof (inv_send_update _ _ _ _ _ _ _ _ Wf1 Wc1 Fn1 I1 Su) as I2.
+  split; [congruence|]. split; [exact Wc2|]. split.
+  - eapply Forall_set_nth; [exact Ff1| |exact Sn].
+    unfold send_update in Su. rewrite Fn1 in Su.
+    destruct (rgn_is_empty _ _ _ && _ && _ && _); [inversion Su; subst; exact Fn1|].
+    destruct (if shape cl1 then Some (sfb s1, subuf s1, scur s1) else _) as [[[a b] c]|]; [|discriminate].
+    destruct (if shape cl1 && changed cl1 then _ else _) as [[d e]|]; [|discriminate].
+    destruct (if shape cl1 then Some a else _) as [g|]; [|discriminate].
+    inversion Su; subst. reflexivity.
+  - eapply Forall_set_nth; [|exact I2|exact Sn].
+    rewrite Forall_forall in *. intros c Hc. eapply inv_transfer; eauto.
+Qed.
+
+Theorem inv_pump_h : forall fixed v_empty fmt k hook s cls outs s' cls' outs' fired,
+  wf_fb (sfb s) -> wf_ocursor (scur s) ->
+  (forall hk nc, hook = Some (hk, nc) -> wf_ocursor nc) ->
+  Forall (fun cl => failnext cl = false) cls ->
+  Forall (Inv fixed fmt s) cls ->
+  pump_h fixed v_empty fmt k hook s cls outs = Some (s', cls', outs', fired) ->
+  sfb s' = sfb s /\ wf_ocursor (scur s') /\ Forall (fun cl => failnext cl = false) cls' /\
+  Forall (Inv fixed fmt s') cls'.
+Proof.
+  intros fixed v_empty fmt k. induction k as [|k IH]; intros hook s cls outs s' cls' outs' fired Wf Wc Wh Ff Fi H.
+  - cbn in H. inversion H; subst. auto.
+  - cbn [pump_h] in H.
+    destruct (update_one fixed v_empty fmt hook s cls k) as [[[[s1 cls1] o] f1]|] eqn:U; [|discriminate].
+    destruct (inv_update_one _ _ _ _ _ _ _ _ _ _ _ Wf Wc Wh Ff Fi U) as (E1 & W1 & F1 & I1).
+    assert (Wf1 : wf_fb (sfb s1)) by (rewrite E1; exact Wf).
+    assert (Wh1 : forall hk nc, (if f1 then None else hook) = Some (hk, nc) -> wf_ocursor nc).
+    { intros hk nc E. destruct f1; [discriminate|]. eapply Wh; eauto. }
+    destruct (IH _ _ _ _ _ _ _ _ Wf1 W1 Wh1 F1 I1 H) as (E2 & W2 & F2 & I2).
+    split; [congruence|]. split; auto.
+Qed.
+
+Theorem inv_pump_rounds : forall fuel fixed v_empty fmt hook s cls outs s' cls' outs' fired,
+  wf_fb (sfb s) -> wf_ocursor (scur s) ->
+  (forall hk nc, hook = Some (hk, nc) -> wf_ocursor nc) ->
+  Forall (fun cl => failnext cl = false) cls ->
+  Forall (Inv fixed fmt s) cls ->
+  pump_rounds fuel fixed v_empty fmt hook s cls outs = Some (s', cls', outs', fired) ->
+  sfb s' = sfb s /\ wf_ocursor (scur s') /\ Forall (Inv fixed fmt s') cls'.
+Proof.
+  induction fuel as [|f IH]; intros fixed v_empty fmt hook s cls outs s' cls' outs' fired Wf Wc Wh Ff Fi H.
+  - cbn in H. inversion H; subst. auto.
+  - cbn [pump_rounds] in H.
+    destruct (pump_h fixed v_empty fmt (length cls) hook s cls []) as [[[[s1 cls1] o1] c1]|] eqn:P; [|discriminate].
+    destruct (inv_pump_h _ _ _ _ _ _ _ _ _ _ _ _ Wf Wc Wh Ff Fi P) as (E1 & W1 & F1 & I1).
+    destruct (existsb (fun ko => o_sent (snd ko)) o1 || (match hook with Some _ => c1 | None => false end)).
+    + assert (Wf1 : wf_fb (sfb s1)) by (rewrite E1; exact Wf).
+      assert (Wh1 : forall hk nc, (if c1 then None else hook) = Some (hk, nc) -> wf_ocursor nc).
+      { intros hk nc E. destruct c1; [discriminate|]. eapply Wh; eauto. }
+      destruct (IH _ _ _ _ _ _ _ _ _ _ _ Wf1 W1 Wh1 F1 I1 H) as (E2 & W2 & I2).
+      split; [congruence|]. auto.
+    + inversion H; subst. auto.
+Qed.
+
+(* even when the write fails: the framebuffer is restored *)
+Theorem update_one_restores : forall fixed v_empty fmt hook s cls k s' cls' o fired,
+  wf_fb (sfb s) -> wf_ocursor (scur s) ->
+  (forall hk nc, hook = Some (hk, nc) -> wf_ocursor nc) ->
+  update_one fixed v_empty fmt hook s cls k = Some (s', cls', o, fired) -> sfb s' = sfb s.
+Proof.
+  intros fixed v_empty fmt hook s cls k s' cls' o fired Wf Wc Wh H. unfold update_one in H.
+  destruct (nth_error cls k) as [cl|]; [|inversion H; subst; auto].
+  destruct (alive cl && fb_update_pending s cl && negb (rgn_is_empty (fw (sfb s)) (fh (sfb s)) (req cl)));
+    [|inversion H; subst; auto].
+  assert (Hook : exists s1 cls1 f1,
+    (match hook with
+     | Some (hk, nc) => if Nat.eqb hk k then (let '(a, b) := set_cursor s cls nc in (a, b, true)) else (s, cls, false)
+     | None => (s, cls, false)
+     end) = (s1, cls1, f1) /\ sfb s1 = sfb s /\ wf_ocursor (scur s1)).
+  { destruct hook as [[hk nc]|]; [|do 3 eexists; split; [reflexivity|auto]].
+    destruct (Nat.eqb hk k); [|do 3 eexists; split; [reflexivity|auto]].
+    destruct (set_cursor s cls nc) as [a b] eqn:Es. do 3 eexists. split; [reflexivity|].
+    pose proof (set_cursor_screen s cls nc) as [A1 A2]. rewrite Es in A1, A2. cbn [fst] in A1, A2.
+    split; [exact A1|]. rewrite A2. eapply Wh; reflexivity. }
+  destruct Hook as (s1 & cls1 & f1 & Eh & Ef1 & Wc1). rewrite Eh in H.
+  destruct (nth_error cls1 k) as [cl1|]; [|discriminate].
+  destruct (send_update fixed v_empty fmt s1 cl1) as [[[s2 cl2] o2]|] eqn:Su; [|discriminate].
+  destruct (set_nth cls1 k cl2); [|discriminate]. inversion H; subst.
+  assert (Wf1 : wf_fb (sfb s1)) by (rewrite Ef1; exact Wf).
+  rewrite (send_update_restores _ _ _ _ _ _ _ _ Wf1 Wc1 Su). exact Ef1.
+Qed.
+
+(* ------------------------------------------------------------------ one cursor object, several screens *)
+(* proposed repair (fix_C15_4): a derived rich form is never inherited from another screen, so the
+   rich form a screen works with was derived for its own format *)
+Theorem rich_cache_matches_format : forall tag fmt c c' r,
+  tag <> None ->
+  ensure_rich fmt (use_shared true tag fmt c) = Some (c', r) ->
+  make_rich_from_x fmt c = Some r.
+Proof.
+  intros tag fmt c c' r Ht H. destruct tag as [b|]; [|congruence]. unfold use_shared in H.
+  destruct (crich c) as [r0|] eqn:Er.
+  - unfold ensure_rich in H. cbn [crich] in H.
+    match type of H with (match ?A with Some _ => _ | None => None end) = _ =>
+      change A with (make_rich_from_x fmt c) in H end.
+    destruct (make_rich_from_x fmt c) as [l|]; [|discriminate]. inversion H; subst. reflexivity.
+  - unfold ensure_rich in H. rewrite Er in H.
+    destruct (make_rich_from_x fmt c) as [l|]; [|discriminate]. inversion H; subst. reflexivity.
+Qed.
+
+Definition fmt8 : pixfmt := mkfmt 1 7 7 3 0 3 6.
+
+(* the tree: the built-in cursor, painted once on an 8-bit screen, then used by a 32-bit screen:
+   rfbShowCursor reads beyond the cached buffer (explicit error value) *)
+Lemma rich_cache_old_refuted :
+  exists c1 r1, ensure_rich fmt8 default_cursor = Some (c1, r1) /\
+    show true fmt32 (mkfb 12 9 (repeat (repeat 0 12) 9)) (use_shared false (Some (bpp fmt8)) fmt32 c1) 5 4 [] = None /\
+    exists res, show true fmt32 (mkfb 12 9 (repeat (repeat 0 12) 9)) (use_shared true (Some (bpp fmt8)) fmt32 c1) 5 4 [] = Some res.
+Proof.
+  do 2 eexists. split; [vm_compute; reflexivity|]. split; [vm_compute; reflexivity|].
+  eexists. vm_compute. reflexivity.
+Qed.
